@@ -9,25 +9,25 @@ checks = json.load(open(V + "/checks.json"))
 TEXT = {
  "C01": ("rapid property test: generated struct types (reflect.StructOf) x defaults x 0-5 partial layers against a pure stacking model located by field name, plus two metamorphic relations; compiled types through Config[T] with interleaved static / watching sources, in-place re-reports and watchers that finish early; inputs whose leaves share storage",
          "Every generated case is stacked by the real compose and compared leaf by leaf with an independent reference model; exploration is bounded (depth<=3, <=8 fields/struct, <=5 layers) and sampled, so it shows absence of violations only on the explored cases."),
- "C02": ("rapid property tests: address-range disjointness + scribble-and-recheck + stack-twice on reflect-built types through compose and on a compiled type through a real Dials with fake watchers; first use of a type from several goroutines; slots of an interface type with methods holding reference implementations",
+ "C02": ("rapid property tests: address-range disjointness + scribble-and-recheck + stack-twice on reflect-built types through compose and on a compiled type through a real Dials with fake watchers; first use of a type from several goroutines; slots of an interface type with methods holding reference implementations; rejected configs collected from OnWatchedError stay isolated and are never installed",
          "Aliasing is invisible to value assertions; the check walks addresses of every pointer/map/slice backing array and also overwrites one version and re-checks all others. Sampled, bounded shapes and histories (<=8 re-stacks)."),
  "C03": ("rapid property test: generated object graphs over a fixed recursive node family; one or two sources may set the same interface field; oracle = terminates + DeepEqual + in->out reference map is a function with fresh range",
          "Graphs of up to 8 nodes with arbitrary edges through every container kind, copied by the deep copier directly, by Config and by a re-stack; process-fatal stack overflows are caught through the per-case journal."),
  "C04": ("rapid stateful histories inside a testing/synctest bubble against an exact reference model; the monitor is parked at schedule points (inside Verify, after the store) while readers look",
          "Every step of a generated history (valid/invalid updates x Skip/Delay options) is compared with a model: rejected updates never stored, view/serial unchanged, error routed to the blocking caller and to OnWatchedError, candidate invisible while Verify runs. Sampled histories (<=14 ops), schedule windows forced by hooks rather than enumerated."),
- "C05": ("rapid stateful histories inside a synctest bubble; oracle = pure reference stack of each source's latest value after every step + store log from a schedule point (serial = predecessor + 1); histories that overflow the callback queue (a monitor that stops stacking deadlocks the bubble)",
+ "C05": ("rapid stateful histories inside a synctest bubble; oracle = pure reference stack of each source's latest value after every step + store log from a schedule point (serial = predecessor + 1); histories that overflow the callback queue (a monitor that stops stacking deadlocks the bubble); reports racing Events readers; the caller overwriting its defaults after Config",
          "Exact comparison after synctest quiescence at every step of histories up to 25 ops from up to 3 sources; interleavings are sequentialised by the harness (plus forced windows), not enumerated."),
  "C06": ("rapid stateful histories inside a synctest bubble; a FIFO model of the callback goroutine predicts the exact global call list; registrations are forced into the store/event window by parking the monitor at a schedule point, slow callbacks park the callback goroutine; overflow histories check that delivered versions are never reordered",
          "The whole ordered list of callback invocations (who, old, new by pointer identity) must equal the model's at every quiescent point; both race orders of store / registration / event are generated deliberately. Bounded histories, queue kept below the documented overflow."),
  "C07": ("rapid stateful histories inside a synctest bubble; caller contexts cancelled before submission or while the monitor is parked in Verify / after the store / before the reply; oracle = exact model + monitor-loop counter + synctest deadlock detection; unstackable values and rejected blocking reports while the callback queue is full; callers with endless contexts waiting for a busy monitor; blocking reports racing Events readers inside one bubble (schedule sampled, verdict by deadlock detection)",
          "Checks read-your-write at return, error/view coupling on rejection, context errors, and that the monitor returns to its loop after an abandoned caller (an unbuffered reply channel is caught). Windows are forced by hooks; other interleavings are sampled."),
- "C08": ("rapid histories ending in a shutdown (cancel or all watchers Done) followed by late API calls under virtual-time contexts, plus free-running multi-goroutine op mixes; oracle = no panic, monitor exits, late calls fail by their deadline, synctest deadlock and goroutine-leak detection; Blank.SetSource/Done scripts after failed or abandoned calls; a structural wedge watchdog (goroutine states, not elapsed time) turns a leaked lock inside a bubble into a replayable failure",
+ "C08": ("rapid histories ending in a shutdown (cancel or all watchers Done) followed by late API calls under virtual-time contexts, plus free-running multi-goroutine op mixes; oracle = no panic, monitor exits, late calls fail by their deadline, synctest deadlock and goroutine-leak detection; Blank.SetSource/Done scripts after failed or abandoned calls; a structural wedge watchdog (goroutine states, not elapsed time) turns a leaked lock inside a bubble into a replayable failure; reports racing Events readers",
          "Deadlock/leak freedom is decided exactly per explored execution by testing/synctest; the set of executions is sampled (controlled shutdown histories + free-running actors), so rare interleavings may be missed."),
  "C09": ("rapid stateful histories over all Delay x Suppress combinations with and without watchers; exact state machine over the Verify log, EnableVerification results and the global-callback list; the same state machine for a config type without a Verify method and for histories with values that cannot be stacked; lagging callback goroutines",
          "Small state space explored densely (thousands of op sequences of length <=12): Verify never before enable, enable verifies exactly the installed pointer, failure keeps the delay, callbacks withheld iff delay in force and suppress option."),
  "C20": ("rapid differential test: a transforming source with 9 mangler lists around static/watching/failing inner sources vs an unwrapped Dials fed natively, model-based scripts of SetSource/Done on a Blank (inner watchers that report at once or later), all inside synctest bubbles; one transforming decoder value reused for several config types against natively filled values; reflect-built types whose tags are not in the announced casing (the translation error must be propagated)",
          "Views behind the wrapper must equal the unwrapped reference and a pure model after the initial stack and every update; errors must surface; Blank's delegation/ownership rules are checked against a small reference model. Mangler lists come from a fixed menu."),
- "C10": ("rapid property tests: generated struct types x mangler chains (the 15 shipped chain variants built from the exported constructors, plus random sub-chains of all nine manglers, optionally two stacked transformers); a descriptor-level model of each mangler locates translated fields by documented key, fills a subset, reverse-translates",
+ "C10": ("rapid property tests: generated struct types x mangler chains (the 15 shipped chain variants built from the exported constructors, plus random sub-chains of all nine manglers, optionally two stacked transformers); a descriptor-level model of each mangler locates translated fields by documented key, fills a subset, reverse-translates; overlapping decodes of fresh types from several goroutines through the decoders' shared mangler",
          "Result type must equal the pointerified original exactly, each written leaf holds the value converted back, every other leaf is nil, parents allocated iff a child is set, the all-empty value reverses to all-nil; TranslateType's key set must equal the model's. Bounded shapes; key words known by construction."),
  "C11": ("rapid property test of the environment source: generated struct types with dials tags in four spellings at any level, dialsenv tags, prefix, noise variables and bad values; expected variable names and value texts built by the harness, never by the library's case decoders or parsers",
          "A leaf must be set iff its by-construction variable is present, to exactly the generated value; everything else nil; unparsable / out-of-range text is an error. Process environment is set and restored per case; cases run sequentially."),
